@@ -178,6 +178,26 @@ def rule_group_run_closed(ctx: Ctx) -> None:
     if not wr:
         raise AnalysisError("group_one_qubit_gates: OneQubitGateWrapper(<gate list>, ...) construction not found")
     L = wr[0].args[0].id
+    # every wrapper that writes a run back sits on the wire being walked: it names both the register and its type (the constructor's default
+    # type is 'e': a wrapper built without it moves a photon's gates onto the emitter with the same number)
+    regs = {norm(a.targets[0]): norm(a.value) for a in ast.walk(fn) if isinstance(a, ast.Assign) and len(a.targets) == 1 and isinstance(a.targets[0], ast.Name)
+            and norm(a.value).endswith((".register", ".reg_type"))}
+    rname = next((k for k, v in regs.items() if v.endswith(".register")), None)
+    tname = next((k for k, v in regs.items() if v.endswith(".reg_type")), None)
+    if rname is None or tname is None:
+        raise AnalysisError("group_one_qubit_gates: the register / reg_type of the walked wire were not found")
+    for w_ in wr:
+        kws = {k.arg: norm(k.value) for k in w_.keywords}
+        pos = [norm(a) for a in w_.args]
+        r_ok = kws.get("register") == rname or pos[1:2] == [rname]
+        t_ok = kws.get("reg_type") == tname or pos[2:3] == [tname]
+        if r_ok and t_ok:
+            ctx.ok("group.run-closed", m, w_, what="wrapper placed on the walked register and type")
+        else:
+            ctx.fail("group.run-closed", m, w_,
+                     f"group_one_qubit_gates writes a run back as `{short(w_, 70)}` without " + ("the register type" if r_ok else "the register") + f" of the wire it walks "
+                     f"(`{rname}`, `{tname}`): the constructor's default type is 'e', so the grouped gates of a photon are re-attached to the emitter with the same number",
+                     func="CircuitDAG.group_one_qubit_gates", construct="group_one_qubit_gates: wrapper without the walked register / type")
     loops = [w for w in ast.walk(fn) if isinstance(w, (ast.While, ast.For)) and any(x in list(ast.walk(w)) for x in wr)]
     if not loops:
         raise AnalysisError("group_one_qubit_gates: the loop that writes the wrapper back was not found")
@@ -440,6 +460,7 @@ def rule_unwrap_source(ctx: Ctx) -> None:
 
 
 KNOCKOUTS = [
+    Knockout("grouping-wrapper-without-reg-type", DAG, sub_nth("                                        gate_list, register, reg_type, noise=noise_list\n", "                                        gate_list, register=register, noise=noise_list\n", 0), "group.run-closed", "without the walked register"),
     Knockout("unwrap-noise-carrier-without-reg-type", "graphiq/circuit/ops.py", sub_once("            noise = Identity(\n                register=self.register, reg_type=self.reg_type, noise=self.noise\n            )", "            noise = Identity(self.register, noise=self.noise)"), "unwrap.order", "own register"),
     Knockout("unwrap-skips-single-gate-wrappers", DAG, sub_once("                op_list = self.dag.nodes[node][\"op\"].unwrap()\n", "                op_list = self.dag.nodes[node][\"op\"].unwrap()\n                if len(op_list) < 2:\n                    continue\n"), "order.wrapper", "skipped"),
     Knockout("grouping-skips-identity-with-open-run", DAG, sub_once("                    else:\n                        gate_list.append(op.__class__)\n                        noise_list.append(op.noise)\n                    self.remove_op(node)", "                    elif isinstance(op, ops.Identity) and isinstance(op.noise, NoNoise):\n                        self.remove_op(node)\n                        continue\n                    else:\n                        gate_list.append(op.__class__)\n                        noise_list.append(op.noise)\n                    self.remove_op(node)"), "group.run-closed", "open run"),
